@@ -1109,8 +1109,8 @@ theorem b62_roundtrip (n : Nat) (h : n < two64) : b62dec (b62enc n) = .ok n := b
   · rename_i h0; subst h0; decide
   · exact b62dec_loop n h
 
-/-- the decoder is NOT total: a byte above 'z' in a directory-name suffix (here '~') indexes past the
-    123-entry table — a crash on foreign directory names (recorded for C06, not claimed here) -/
+/-- the dependency's decoder is NOT total: a byte above 'z' (here '~') indexes past the 123-entry
+    table; `UnmarshalString` refuses such directory-name suffixes before decoding (fix of C06) -/
 example : b62dec [126] = .panic "index out of range" := by decide
 
 
@@ -1163,6 +1163,30 @@ theorem b62enc_nodash (n : Nat) : delimDash ∉ b62enc n := by
   · decide
   · exact b62loop_nodash n
 
+theorem enc_table_le : ∀ d, d < 62 → Gen.B62.encodeLookup.getD d 0 ≤ 122 := by decide
+
+theorem b62loop_le (n : Nat) : ∀ c ∈ b62loop n, c ≤ 122 := by
+  induction n using Nat.strongRecOn with
+  | _ n ih =>
+    rw [b62loop]
+    split
+    · rename_i hpos
+      have hdl : Gen.B62.stringEncUin64DictLen = 62 := rfl
+      rw [hdl]
+      intro c hm
+      simp only [List.mem_cons] at hm
+      rcases hm with hm | hm
+      · rw [hm]; exact enc_table_le (n % 62) (Nat.mod_lt _ (by decide))
+      · exact ih (n / 62) (Nat.div_lt_self hpos (by decide)) c hm
+    · intro c hc; cases hc
+
+/-- what `MarshalString` writes stays within the decoder's table -/
+theorem b62enc_le (n : Nat) : ∀ c ∈ b62enc n, c ≤ 122 := by
+  unfold b62enc
+  split
+  · decide
+  · exact b62loop_le n
+
 theorem decodeAll_enc (ns : List Nat) (h : ∀ n ∈ ns, n < two64) : decodeAll (ns.map b62enc) = .ok ns := by
   induction ns with
   | nil => rfl
@@ -1177,6 +1201,12 @@ theorem suffix_roundtrip (m : Meta) (h : ∀ n ∈ suffixFields m, n < two64) :
   rw [splitOn_joinDash _ (by simp [suffixFields]) (by
     intro p hp; simp only [List.mem_map] at hp; obtain ⟨n, _, rfl⟩ := hp; exact b62enc_nodash n)]
   rw [if_neg (by simp [suffixFields])]
+  rw [if_neg (by
+    intro hany
+    simp only [List.any_eq_true, List.mem_map, decide_eq_true_eq] at hany
+    obtain ⟨f, ⟨n, _, rfl⟩, c, hc, hgt⟩ := hany
+    have := b62enc_le n c hc
+    omega)]
   exact decodeAll_enc _ h
 
 
